@@ -98,12 +98,12 @@ class Edits:
         self.seq = 0
         self.counts = {}
 
-    def add(self, start, end, text, rule, subsume=False):
-        self.list.append((start, end, self.seq, text, rule, subsume))
+    def add(self, start, end, text, rule, subsume=False, prio=0):
+        self.list.append((start, end, self.seq, text, rule, subsume, prio))
         self.seq += 1
 
-    def insert(self, pos, text, rule):
-        self.add(pos, pos, text, rule)
+    def insert(self, pos, text, rule, prio=0):
+        self.add(pos, pos, text, rule, prio=prio)
 
     def replace(self, start, end, text, rule, subsume=False):
         self.add(start, end, text, rule, subsume)
@@ -132,10 +132,10 @@ class Edits:
             if not inside:
                 keep.append(e)
         # insertions sort before a replacement starting at the same offset
-        keep.sort(key=lambda e: (e[0], 0 if e[1] == e[0] else 1, e[2]))
+        keep.sort(key=lambda e: (e[0], 0 if e[1] == e[0] else 1, e[6], e[2]))
         out = []
         pos = a
-        for (s, e, _seq, text, _rule, _sub) in keep:
+        for (s, e, _seq, text, _rule, _sub, _prio) in keep:
             if s < pos:
                 raise Unsupported(f"overlapping rewrites at byte {s}")
             out.append(src.data[pos:s].decode("utf-8"))
@@ -381,8 +381,8 @@ def r12_for_mut(src, item, ed, opts):
         pat = src.text(*n["pat"])
         # header: from loop start to body open brace
         ed.replace(n["range"][0], n["body"][0], f"let mut {k}: usize = 0; while {k} < {v}.len() ", "R12")
-        ed.insert(n["body"][0] + 1, f" let {pat} = &mut {v}[{k}]; ", "R12")
-        ed.insert(n["body"][1] - 1, f" {k} += 1; ", "R12")
+        ed.insert(n["body"][0] + 1, f" let {pat} = &mut {v}[{k}]; ", "R12", prio=5)
+        ed.insert(n["body"][1] - 1, f" {k} += 1; ", "R12", prio=5)
         ed.count("R12")
 
 
@@ -404,7 +404,7 @@ def r21_for_rev(src, item, ed, opts):
         k = sp.get("k", "vx_idx")
         pat = src.text(*n["pat"])
         ed.replace(n["range"][0], n["body"][0], f"let mut {k}: usize = {v}.len(); while {k} > 0 ", "R21")
-        ed.insert(n["body"][0] + 1, f" {k} -= 1; let {pat} = &{v}[{k}]; ", "R21")
+        ed.insert(n["body"][0] + 1, f" {k} -= 1; let {pat} = &{v}[{k}]; ", "R21", prio=-5)
         ed.count("R21")
 
 
@@ -431,8 +431,8 @@ def r22_for_enumerate(src, item, ed, opts):
             raise Unsupported(f"R22 expects a `(k, x)` pattern, found `{pat}`")
         k, x = pm.group(1), pm.group(2).strip()
         ed.replace(n["range"][0], n["body"][0], f"let mut {k}: usize = 0; while {k} < {v}.len() - {a} ", "R22")
-        ed.insert(n["body"][0] + 1, f" let {x} = &{v}[{a} + {k}]; ", "R22")
-        ed.insert(n["body"][1] - 1, f" {k} += 1; ", "R22")
+        ed.insert(n["body"][0] + 1, f" let {x} = &{v}[{a} + {k}]; ", "R22", prio=-5)
+        ed.insert(n["body"][1] - 1, f" {k} += 1; ", "R22", prio=5)
         ed.count("R22")
 
 
@@ -484,8 +484,28 @@ def r24_call_shim(src, item, ed, opts):
             ed.count(sp.get("rule", "R24"))
 
 
+def r6_mem_replace(src, item, ed, opts):
+    """`std::mem::replace(&mut V[I], P.clone())` -> `vx_replace_at(&mut V, I, &P)`"""
+    for n in nodes_of(item, "call"):
+        if n["func"] in ("std::mem::replace", "mem::replace", "core::mem::replace", "::std::mem::replace"):
+            if len(n["args"]) != 2:
+                raise Unsupported("mem::replace arity")
+            a0 = src.text(*n["args"][0]["range"]).strip()
+            a1 = src.text(*n["args"][1]["range"]).strip()
+            m0 = re.fullmatch(r"&mut\s+([\w\.]+)\[(.+)\]", a0, re.S)
+            m1 = re.fullmatch(r"([\w\.]+)\.clone\(\)", a1, re.S)
+            if not m0 or not m1:
+                raise Unsupported(f"R6 expects mem::replace(&mut V[I], P.clone()), found ({a0}, {a1})")
+            ed.replace(n["range"][0], n["range"][1], f"vx_replace_at(&mut {m0.group(1)}, {m0.group(2)}, &{m1.group(1)})", "R6", subsume=True)
+            ed.count("R6")
+
+
 def r25_closure_wildcard(src, item, ed, opts):
     """closure parameter `_` -> a fresh variable name (Verus accepts only variables there)"""
+    for j, p in enumerate(item.get("inputs", [])):
+        if not p.get("self") and p.get("pat") == "_":
+            ed.replace(p["pat_range"][0], p["pat_range"][1], f"_vx_unused_arg{j}", "R25")
+            ed.count("R25")
     for n in nodes_of(item, "closure"):
         for j, p in enumerate(n["inputs"]):
             if p["text"] == "_":
@@ -494,6 +514,7 @@ def r25_closure_wildcard(src, item, ed, opts):
 
 
 RULES = {
+    "R6": r6_mem_replace,
     "R25": r25_closure_wildcard,
     "R1": r1_format,
     "R2": r2_panic,
@@ -632,7 +653,9 @@ def extract_fn(src, spec, unit_rules):
         elif kind == "call":
             c = [n for n in nodes_of(item, "call") if n["func"] == sel]
         elif kind == "methodcall":
-            c = [n for n in nodes_of(item, "methodcall") if n["method"] == sel]
+            c = [n for n in nodes_of(item, "methodcall") if n["method"] == sel and (at.get("recv") is None or n["receiver_text"] == at["recv"].replace(" ", ""))]
+        elif kind == "binary":
+            c = [n for n in nodes_of(item, "binary") if n["op"] == sel]
         elif kind == "let":
             c = [n for n in nodes_of(item, "let") if n["pat_text"] == sel]
         elif kind == "assign":
@@ -779,6 +802,10 @@ def extract_type(src, spec, unit_rules):
     if item["kind"] == "static" and "R9" in unit_rules:
         st = item["static_tok"]
         ed.replace(st[0], st[1], "const", "R9")
+        ty = item["ty"]
+        tyt = src.text(*ty)
+        if tyt.startswith("&") and not tyt.startswith("&'"):
+            ed.insert(ty[0] + 1, "'static ", "R9")
     text = ed.apply(src, a, b)
     d = spec.get("derive", "")
     if d:
